@@ -15,3 +15,11 @@ package utils
 //@   loop 1 invariant each: 0 <= $idx(1) && $idx(1) <= len(out) && calls(Trim) == $idx(1)
 //@   at call TrimSpace#1 assert item: $arg0 == out[i]
 //@ end
+
+// C19 — a snippet is cut at every line break: no item carries an embedded \n
+//@ func LineToSlice
+//@   props C19
+//@   inline
+//@   at call Split#1 assert lines: $arg1 == "\n"
+//@   ensures empty: s == "" ==> len(result) == 0
+//@ end
